@@ -36,6 +36,8 @@ func transportRoles(p *Prog) (owner, reader *ssa.Function) {
 			if g, ok := in.(*ssa.Go); ok {
 				if mc, ok := g.Call.Value.(*ssa.MakeClosure); ok {
 					reader = mc.Fn.(*ssa.Function)
+				} else if callee := staticCallee(&g.Call); callee != nil && callee.Blocks != nil && len(findCalls(callee, "invoke p9p.Channel.ReadFcall")) > 0 {
+					reader = callee // the reader goroutine body extracted into a method
 				}
 			}
 		})
